@@ -614,7 +614,24 @@ func (ts *TermStore) FBin(op Op, a, b *Term) *Term {
 		}
 		return ts.F64Const(r)
 	}
+	if a.IsConst() && b.Op == OIte && iteConstLeaves(b, 0) {
+		return ts.Ite(b.A[0], ts.FBin(op, a, b.A[1]), ts.FBin(op, a, b.A[2]))
+	}
+	if b.IsConst() && a.Op == OIte && iteConstLeaves(a, 0) {
+		return ts.Ite(a.A[0], ts.FBin(op, a.A[1], b), ts.FBin(op, a.A[2], b))
+	}
 	return ts.mk(op, a.Sort, a, b, nil, 0, 0, "")
+}
+
+// iteConstLeaves: t is an ite-tree (bounded size) whose leaves are all constants.
+func iteConstLeaves(t *Term, depth int) bool {
+	if t.IsConst() {
+		return true
+	}
+	if t.Op != OIte || depth > 128 {
+		return false
+	}
+	return iteConstLeaves(t.A[1], depth+1) && iteConstLeaves(t.A[2], depth+1)
 }
 
 func (ts *TermStore) FNeg(a *Term) *Term {
@@ -643,6 +660,12 @@ func (ts *TermStore) FCmp(op Op, a, b *Term) *Term {
 			return ts.Bool(x == y)
 		}
 	}
+	if a.IsConst() && b.Op == OIte && iteConstLeaves(b, 0) {
+		return ts.Ite(b.A[0], ts.FCmp(op, a, b.A[1]), ts.FCmp(op, a, b.A[2]))
+	}
+	if b.IsConst() && a.Op == OIte && iteConstLeaves(a, 0) {
+		return ts.Ite(a.A[0], ts.FCmp(op, a.A[1], b), ts.FCmp(op, a.A[2], b))
+	}
 	return ts.mk(op, BoolSort, a, b, nil, 0, 0, "")
 }
 
@@ -650,12 +673,18 @@ func (ts *TermStore) FIsNaN(a *Term) *Term {
 	if a.IsConst() {
 		return ts.Bool(math.IsNaN(a.F64()))
 	}
+	if a.Op == OIte && iteConstLeaves(a, 0) {
+		return ts.Ite(a.A[0], ts.FIsNaN(a.A[1]), ts.FIsNaN(a.A[2]))
+	}
 	return ts.mk(OFIsNaN, BoolSort, a, nil, nil, 0, 0, "")
 }
 
 func (ts *TermStore) FIsInf(a *Term) *Term {
 	if a.IsConst() {
 		return ts.Bool(math.IsInf(a.F64(), 0))
+	}
+	if a.Op == OIte && iteConstLeaves(a, 0) {
+		return ts.Ite(a.A[0], ts.FIsInf(a.A[1]), ts.FIsInf(a.A[2]))
 	}
 	return ts.mk(OFIsInf, BoolSort, a, nil, nil, 0, 0, "")
 }
